@@ -289,6 +289,24 @@ def _opname(s):
     return re.split(r'[ {(]', s, 1)[0]
 
 
+_TYPES = {'in': None, 'out': None}      # 'func [..] -> [..]' strings of the run being compared (set by native_bodies_mismatch)
+
+
+def _blockty_sig(bt, types):
+    """signature string denoted by a block type Debug string"""
+    bt = bt.strip()
+    if bt == 'Empty':
+        return 'func [] -> []'
+    m = re.match(r'FuncType\((\d+)\)', bt)
+    if m:
+        i = int(m.group(1))
+        return types[i] if types and i < len(types) else None
+    m = re.match(r'Type\((.*)\)$', bt)
+    if m:
+        return 'func [] -> [%s]' % m.group(1)
+    return None
+
+
 def _same_dbg(a, b):
     if _opname(a) != _opname(b):
         return False
@@ -297,6 +315,10 @@ def _same_dbg(a, b):
         if k in _IDX:
             continue
         if k == 'blockty' and 'FuncType' in fa[k]:
+            # type indices are renumbered and inline-able signatures may be written inline: the SIGNATURE must agree
+            sa, sb = _blockty_sig(fa[k], _TYPES['in']), _blockty_sig(fb.get(k, ''), _TYPES['out'])
+            if sa is not None and sb is not None and sa != sb:
+                return False
             continue
         if k == 'memarg':
             ma, mb = _fields(fa[k]), _fields(fb.get(k, ''))
@@ -365,6 +387,8 @@ def native_bodies_mismatch(r, emit_index=0):
     """(mismatch?, info): some input body has no admissible image among the output bodies"""
     ins = r['input']['dump']['code']
     outs = r['emits'][emit_index]['dump']['code']
+    _TYPES['in'] = r['input']['dump'].get('types')
+    _TYPES['out'] = r['emits'][emit_index]['dump'].get('types')
     info = []
     used = set()
     for i, b in enumerate(ins):
@@ -426,7 +450,7 @@ def confirm_dwarf(vio, pid):
             ok.append(r.get('status') == 'panic')
         elif r.get('status') != 'ok':
             ok.append(None)
-        elif key.split('[')[0] in ('dwarf.low_pc', 'dwarf.high_pc', 'dwarf.seq_base'):
+        elif key.split('[')[0] in ('dwarf.low_pc', 'dwarf.high_pc', 'dwarf.seq_base', 'dwarf.original_range'):
             ok.append(summ.get('subprogram_mismatches', 0) > 0 or summ.get('row_mismatches', 0) > 0)
         else:
             gc_run = bool(opts.get('gc'))
